@@ -3136,6 +3136,12 @@ func (p *Posix) DeleteObject(ctx context.Context, input *s3.DeleteObjectInput) (
 					return nil, fmt.Errorf("set versionId: %w", err)
 				}
 			} else {
+				// the null delete marker replaces a null version kept in
+				// the versioning directory, as a suspended PutObject does
+				err = p.deleteNullVersionIdObject(bucket, object)
+				if err != nil {
+					return nil, fmt.Errorf("delete null version: %w", err)
+				}
 				err = p.meta.DeleteAttribute(bucket, object, versionIdKey)
 				if err != nil && !errors.Is(err, meta.ErrNoSuchKey) {
 					return nil, fmt.Errorf("delete versionId: %w", err)
